@@ -116,7 +116,7 @@ func runC12(b *mon.B) {
 	}
 	key := []byte(sc.Scopes[0].Key)
 	withAcct := []string{"alice", "bob", "dave", "heidi", "per%cent %s%d", "ivan"}
-	withoutAcct := []string{"carol", "erin", "frank", "grace"}
+	withoutAcct := []string{"carol", "erin", "frank", "grace", "judy"}
 	caseNo := 0
 	rounds := b.N(12, 300)
 	for round := 0; round < rounds; round++ {
